@@ -37,6 +37,7 @@ snapshot.
 Sweep: C18.5 the reader walks a whole batch (loop never cut short), skips an event only when it is older than or equal to the last one seen and hands every other one over; download_batch returns the rows it read.
 Fifth round: C18.3 every input of the timestamp merge of the server-trace archiver is sorted when it is merged; C18.5 the trace loops read the snapshots before they register the live watch.
 Sixth round: C18.2 the archivers keep nothing in module-level state between runs.
+Seventh round: C18.4 download_batch (a prefix query on event names) is used on trace tables only; C18.5 every row of a finished snapshot is loaded into the history, whatever live records exist.
 Does NOT decide retrievability from the produced snapshot nor every crash cut
 beyond the upload-before-delete ordering.
 """
